@@ -17,7 +17,8 @@
                                              are Equal keys but distinguishable
      "plain"  sorted(l)                      elements [key, tag] (list order)
      "key"    sorted(l, key=fn(x) x[0])      elements [key, tag]
-     "keyrev" sorted(l, cmp=fn(a, b) compare(b, a), key=fn(x) x[0])            *)
+     "keyrev" sorted(l, cmp=fn(a, b) compare(b, a), key=fn(x) x[0])
+     "numkey" sorted(l, key=fn(x) [type(x), x])   elements 1, 1.0, 2, 0.5       *)
 EXTENDS Val, TLC, Json, IOUtils
 
 CONSTANTS MaxN,       \* longest input list
@@ -28,12 +29,17 @@ CONSTANTS MaxN,       \* longest input list
 TagStr(t) == VStr(<<96 + t>>)                      \* 'a', 'b', ...
 Tagged == {VList(<<VInt(k), TagStr(t)>>) : k \in 1..NKeys, t \in 1..NTags}
 Nums   == {VInt(1), VDec(1, 1), VInt(2), VDec(1, 2)}
-Modes  == {"num", "plain", "key", "keyrev"}
-Pool(m) == IF m = "num" THEN Nums ELSE Tagged
+Modes  == {"num", "numkey", "plain", "key", "keyrev"}
+Pool(m) == IF m \in {"num", "numkey"} THEN Nums ELSE Tagged
+\* type(x) as a string value: 'int' / 'decimal'
+TypeStr(x) == IF x.k = "int" THEN VStr(<<105, 110, 116>>) ELSE VStr(<<100, 101, 99, 105, 109, 97, 108>>)
 
 Seqs(S, n) == UNION {[1..m -> S] : m \in 0..n}
 
-KeyOf(m, x)  == IF m \in {"key", "keyrev"} THEN x.items[1] ELSE x
+\* "numkey": sorted(l, key = fn(x) [type(x), x]) - a key that tells the Equal
+\* elements 1 and 1.0 apart (each element must get its own key)
+KeyOf(m, x)  == IF m \in {"key", "keyrev"} THEN x.items[1]
+                ELSE IF m = "numkey" THEN VList(<<TypeStr(x), x>>) ELSE x
 \* cmp(a, b) as called by the loop; the default is `compare`
 Cmp(m, x, y) == IF m = "keyrev" THEN Compare(y, x) ELSE Compare(x, y)
 
@@ -91,7 +97,7 @@ PrefixSorted ==
 \* sorted does not need cmp to be called on anything but keys of the input
 Emit(tag, rec) == IF Export THEN PrintT("@@" \o tag \o "@@" \o ToJson(rec)) ELSE TRUE
 Cmpct(m, s) == [k \in 1..Len(s) |->
-                 IF m = "num" THEN <<s[k].n[1], s[k].n[2], IF s[k].k = "int" THEN 0 ELSE 1>>
+                 IF m \in {"num", "numkey"} THEN <<s[k].n[1], s[k].n[2], IF s[k].k = "int" THEN 0 ELSE 1>>
                  ELSE <<s[k].items[1].n[1], s[k].items[2].s[1] - 96>>]
 ExportFinal == pc = "done" => Emit("SORT", [m |-> mode, inp |-> Cmpct(mode, inp), out |-> Cmpct(mode, res)])
 
